@@ -253,8 +253,54 @@ class UpdateCSR(EFMethod):
     name = 'vfps::ElectricField::updateCSR'
     params = ['cutoff_frequency']
     tags = {'C07', 'C17', 'C18', 'C12'}
-    ghosts = {'n': 'int', 'i': 'int'}
+    ghosts = {'n': 'int', 'i': 'int', 'k': 'int'}
     uf_mul = 'sign'      # only the sign rules of multiplication are needed
+    uf_div = True
+    # concrete sizes for the bounded re-check (used only after the loop contracts stopped fitting)
+    bounded_cases = [(lambda nb_, nm_: (lambda cx: [cx.f(PS_NX) == 2, cx.f(PS_NY) == 2, cx.f(PS_NB) == nb_, cx.f('this._nmax', 'u64') == nm_]))(a_, b_) for a_, b_ in ((1, 2), (2, 3))]
+    GIN = 'ghost.csr_in'  # ghost: the sequence handed to the forward transform in the iteration of ghost bunch n
+
+    @property
+    def calls(self):
+        def fft(ex, n, st, objn, argn, this_override=None):
+            r = models.fft_call(ex, n, st, 'fft_execute', argn)
+            kind, a, _b, nn = ex.fft_log[-1]
+            cx = Ctx(ex, st, ex.entry, ex.args0)
+            old = st.array(self.GIN, '', parse_type_str('float'))
+            st.arr[(self.GIN, '')] = z3.If(cx.v('n') == ex.unit_ghosts['n'], a, old)
+            ex.logw(('r', self.GIN))
+            return r
+        return {'fft_execute': fft}
+
+    def law(self, cx, gi, ffre, ffim):
+        """spectrum sample = renorm * g(f_i) * Re Z[i] * |F[i]|^2 with g = 1 (no cutoff) or 1 - exp(-(f_i/f_c)^2):
+        the current impedance and the cutoff passed to THIS call (C07, C10)"""
+        ex = cx.ex
+        ex.cur_state = None
+        fm = ex.fmul
+        renorm0, fc = cx.rf('this._formfactorrenorm'), cx.a('cutoff_frequency')
+        t = (cx.this or 'this')
+        x = ex.fdiv(fm(cx.rf(t + '._axis_freq._scale[Hertz]'), cx.sel('this._axis_freq._data', gi)), fc)
+        g = 1 - models.uf('exp')(-fm(x, x))
+        renorm = If(fc > 0, fm(renorm0, g), renorm0)
+        zre = cx.sel('this._impedance._data', gi, 're')
+        return fm(fm(renorm, zre), fm(ffre, ffre) + fm(ffim, ffim))
+
+    def law_ghost_bunch(self, cx, gi):
+        nmax = cx.f('this._nmax', 'u64')
+        gin = cx.arr(self.GIN)
+        half = nmax / 2
+        ffre = If(gi <= half, models.DFT_RE(gin, I(0), nmax, gi), cx.old.sel(FF, gi, 're'))
+        ffim = If(gi <= half, models.DFT_IM(gin, I(0), nmax, gi), cx.old.sel(FF, gi, 'im'))
+        return self.law(cx, gi, ffre, ffim)
+
+    def gin_is_padded_profile(self, cx, gn):
+        """the transformed sequence of bunch gn: its current bunch profile in [0,nx), the untouched padding above"""
+        nx, ny, nb = ps_globals(cx)
+        k = cx.g('k')
+        gin = cx.arr(self.GIN)
+        return And(Implies(And(k >= 0, k < nx), z3.Select(gin, k) == cx.old.sel('this._phasespace._projection', gn * nx + k)),
+                   Implies(k >= nx, z3.Select(gin, k) == cx.old.sel(BP, k)))
 
     def requires(self, cx):
         # passive impedance: non-negative real part at every frequency (established by the impedance models, C16)
@@ -263,7 +309,7 @@ class UpdateCSR(EFMethod):
 
     def assigns(self, cx):
         nx = cx.f(PS_NX)
-        return [('r', cx.R(BP), I(0), nx), ('r', cx.R(FF)), ('r', cx.R('this._csrspectrum')), ('r', cx.R('this._csrintensity'))]
+        return [('r', cx.R(BP), I(0), nx), ('r', cx.R(FF)), ('r', cx.R('this._csrspectrum')), ('r', cx.R('this._csrintensity')), ('r', self.GIN)]
 
     def ensures(self, cx):
         nx, ny, nb = ps_globals(cx)
@@ -272,6 +318,8 @@ class UpdateCSR(EFMethod):
         inr = And(n >= 0, n < nb, i >= 0, i < nmax)
         spec = cx.arr('this._csrspectrum')
         return [('spectrum_nonneg', {'C07'}, Implies(inr, z3.Select(spec, n * nmax + i) >= 0)),
+                ('spectrum_law', {'C07', 'C10', 'C18'}, Implies(inr, z3.Select(spec, n * nmax + i) == self.law_ghost_bunch(cx, i))),
+                ('transform_input', {'C07', 'C18'}, Implies(And(n >= 0, n < nb), self.gin_is_padded_profile(cx, n))),
                 ('power_is_sum', {'C07', 'C10'}, Implies(And(n >= 0, n < nb), cx.sel('this._csrintensity', n) ==
                                                          models.recfun('SUMSCALED')(spec, n * nmax, cx.rf('this._axis_freq._delta'), nmax))),
                 ('power_nonneg', {'C07'}, Implies(And(n >= 0, n < nb), cx.sel('this._csrintensity', n) >= 0)),
@@ -298,6 +346,10 @@ class UpdateCSR(EFMethod):
         S = models.recfun('SUMSCALED')
         return [('range', And(n >= 0, n <= nb)),
                 ('done', Implies(And(gn >= 0, gn < n, gi >= 0, gi < nmax), z3.Select(spec, gn * nmax + gi) >= 0)),
+                ('law', Implies(And(gn >= 0, gn < n, gi >= 0, gi < nmax), z3.Select(spec, gn * nmax + gi) == self.law_ghost_bunch(cx, gi))),
+                ('gin', Implies(And(gn >= 0, gn < n), self.gin_is_padded_profile(cx, gn))),
+                ('pad', Implies(cx.g('k') >= nx, cx.sel(BP, cx.g('k')) == cx.old.sel(BP, cx.g('k')))),
+                ('ffup', Implies(gi > nmax / 2, And(cx.sel(FF, gi, 're') == cx.old.sel(FF, gi, 're'), cx.sel(FF, gi, 'im') == cx.old.sel(FF, gi, 'im')))),
                 ('power', Implies(And(gn >= 0, gn < n), And(cx.sel('this._csrintensity', gn) == S(spec, gn * nmax, cx.rf('this._axis_freq._delta'), nmax),
                                                            cx.sel('this._csrintensity', gn) >= 0)))] + self._frame(cx)
 
@@ -309,6 +361,12 @@ class UpdateCSR(EFMethod):
         S = models.recfun('SUMSCALED')
         return [('range', And(n >= 0, n < nb, i >= 0, i <= nmax)),
                 ('done', Implies(And(gn >= 0, gi >= 0, gi < nmax, Or(gn < n, And(gn == n, gi < i))), z3.Select(spec, gn * nmax + gi) >= 0)),
+                ('law', Implies(And(gn >= 0, gi >= 0, gi < nmax, Or(gn < n, And(gn == n, gi < i))), z3.Select(spec, gn * nmax + gi) == self.law_ghost_bunch(cx, gi))),
+                ('gin', Implies(And(gn >= 0, gn <= n), self.gin_is_padded_profile(cx, gn))),
+                ('pad', Implies(cx.g('k') >= nx, cx.sel(BP, cx.g('k')) == cx.old.sel(BP, cx.g('k')))),
+                ('ffup', Implies(gi > nmax / 2, And(cx.sel(FF, gi, 're') == cx.old.sel(FF, gi, 're'), cx.sel(FF, gi, 'im') == cx.old.sel(FF, gi, 'im')))),
+                ('ffcur', Implies(And(gn == n, gi >= 0, gi <= nmax / 2), And(cx.sel(FF, gi, 're') == models.DFT_RE(cx.arr(self.GIN), I(0), nmax, gi),
+                                                                            cx.sel(FF, gi, 'im') == models.DFT_IM(cx.arr(self.GIN), I(0), nmax, gi)))),
                 ('power', Implies(And(gn >= 0, gn < n), And(cx.sel('this._csrintensity', gn) == S(spec, gn * nmax, cx.rf('this._axis_freq._delta'), nmax),
                                                            cx.sel('this._csrintensity', gn) >= 0))),
                 ('acc', And(cx.sel('this._csrintensity', n) == S(spec, n * nmax, cx.rf('this._axis_freq._delta'), i), cx.sel('this._csrintensity', n) >= 0))] + self._frame(cx)
